@@ -349,3 +349,89 @@ package measure
 //@   loop 0 invariant winR: winner(target, old(len(target.timestamps)), old(right), old(right.idx))
 //@   loop 1 invariant left.idx <= i && i <= len(left.timestamps) && (forall a :: left.idx <= a && a < i ==> left.timestamps[a] <= ts2)
 //@   loop 1 decreases len(left.timestamps) - i
+//
+//@ section WIP-C02q
+// ---- query-time merge of the block cursors of one series: one row per timestamp ----
+// container/heap is external (assumed as for the sidx merge): a ghost flag records which cursors the heap still owns.
+//@ type blockCursor
+//@   ghost inHeap bool
+//@ spec func bcValid(c *blockCursor) bool = 0 <= c.idx && c.idx < len(c.timestamps) && len(c.versions) == len(c.timestamps) && !fresh(c.timestamps) && !fresh(c.versions) && c.bm.seriesID != 0
+//@ spec func qrListOK(qr *queryResult) bool = forall k :: 0 <= k && k < len(qr.data) ==> qr.data[k] != nil && pidx(qr.data[k]) == 0 && qr.data[k].inHeap
+//@ spec func allBC() bool = forall c *blockCursor :: c.inHeap ==> bcValid(c)
+//@ spec func allInc() bool = forall c *blockCursor, a, b :: c.inHeap && 0 <= a && a < b && b < len(c.timestamps) ==> c.timestamps[a] < c.timestamps[b]
+//@ spec func tsBefore(asc bool, x int64, y int64) bool = ite(asc, x < y, x > y)
+// heap order by time: the top's current row is not after any other in-heap cursor's current row; among equal
+// timestamps of the same series the top carries the highest version
+//@ spec func qrTop(qr *queryResult) bool = len(qr.data) > 0 ==> (forall c *blockCursor :: c.inHeap ==>
+//@     tsBefore(qr.ascTS, qr.data[0].timestamps[qr.data[0].idx], c.timestamps[c.idx]) ||
+//@     (qr.data[0].timestamps[qr.data[0].idx] == c.timestamps[c.idx] && (qr.data[0].bm.seriesID == c.bm.seriesID ==> qr.data[0].versions[qr.data[0].idx] >= c.versions[c.idx])))
+//@ func heap.Pop
+//@   assumed container/heap with queryResult's Less/Swap/Pop: removes the top cursor, keeps every other in-heap cursor, restores the heap order
+//@   requires len(unbox(h, queryResult).data) > 0
+//@   requires comparable: forall c *blockCursor :: c.inHeap && c != unbox(h, queryResult).data[0] ==> bcValid(c)
+//@   modifies unbox(h, queryResult).data
+//@   modifies allof(blockCursor.inHeap)
+//@   ensures  len(unbox(h, queryResult).data) == old(len(unbox(h, queryResult).data)) - 1
+//@   ensures  sameobj(unbox(h, queryResult).data, old(unbox(h, queryResult).data)) && off(unbox(h, queryResult).data) == off(old(unbox(h, queryResult).data))
+//@   ensures  !old(unbox(h, queryResult).data[0]).inHeap
+//@   ensures  forall c *blockCursor :: c != old(unbox(h, queryResult).data[0]) ==> c.inHeap == old(c.inHeap)
+//@   ensures  qrListOK(unbox(h, queryResult)) && qrTop(unbox(h, queryResult))
+//@ func heap.Fix
+//@   assumed container/heap: re-establishes the heap order after the element at index i changed; same cursors
+//@   requires 0 <= i && i < len(unbox(h, queryResult).data)
+//@   requires comparable: allBC()
+//@   modifies unbox(h, queryResult).data
+//@   ensures  samehdr(unbox(h, queryResult).data, old(unbox(h, queryResult).data))
+//@   ensures  qrListOK(unbox(h, queryResult)) && qrTop(unbox(h, queryResult))
+//@ func queryResult.Len
+//@   mode int
+//@   ensures result == len(qr.data)
+//@ func queryResult.orderByTimestampDesc
+//@   mode int
+//@   requires qr != nil
+//@   ensures result == (qr.orderByTS && !qr.ascTS)
+//@ func blockCursor.copyTo
+//@   assumed appends the cursor's current row to the result (timestamp, version; tag and field columns are outside the model)
+//@   requires bc != nil && r != nil
+//@   modifies r.Timestamps
+//@   modifies r.Versions
+//@   modifies r.SID
+//@   ensures  len(r.Timestamps) == old(len(r.Timestamps)) + 1 && len(r.Versions) == old(len(r.Versions)) + 1
+//@   ensures  r.Timestamps[len(r.Timestamps)-1] == bc.timestamps[bc.idx] && r.Versions[len(r.Versions)-1] == bc.versions[bc.idx] && r.SID == bc.bm.seriesID
+//@   ensures  forall j :: 0 <= j && j < old(len(r.Timestamps)) ==> r.Timestamps[j] == old(r.Timestamps[j])
+//@   ensures  forall j :: 0 <= j && j < old(len(r.Versions)) ==> r.Versions[j] == old(r.Versions[j])
+//@   ensures  fresh(r.Timestamps) && fresh(r.Versions)
+//@ func blockCursor.replace
+//@   assumed overwrites the last row of the result with the cursor's current row (same timestamp; version, tags, fields)
+//@   requires bc != nil && r != nil && len(r.Versions) > 0
+//@   modifies r.Versions[len(r.Versions)-1:len(r.Versions)]
+//@   modifies r.SID
+//@   ensures  r.Versions[len(r.Versions)-1] == bc.versions[bc.idx]
+//@ func blockCursor.mergeTopNResult
+//@   assumed TopN queries only (generated protobuf types)
+//@   requires false
+//
+// merge: the rows of one Pull are strictly ordered by time in the requested direction - no timestamp occurs twice.
+//@ spec func strictTimes(r *model.MeasureResult, asc bool) bool = forall i, j :: 0 <= i && i < j && j < len(r.Timestamps) ==> tsBefore(asc, r.Timestamps[i], r.Timestamps[j])
+//@ func queryResult.merge
+//@   mode int
+//@   timeout 30
+//@   requires qr != nil && pidx(qr) == 0 && qr.orderByTS && qr.topNQueryOptions == nil
+//@   requires qrListOK(qr) && allBC() && qrTop(qr)
+//@   requires sortedBlocks: allInc()
+//@   modifies qr.data
+//@   modifies allof(blockCursor.inHeap)
+//@   modifies allof(blockCursor.idx)
+//@   ensures  one-row-per-timestamp: strictTimes(result, qr.ascTS)
+//@   ensures  aligned: len(result.Versions) == len(result.Timestamps)
+//@   loop 0 split-paths
+//@   loop 0 invariant result != nil && fresh(result) && qr.orderByTS && qr.ascTS == old(qr.ascTS) && !isTopN && (step == 1 || step == -1) && (qr.ascTS <==> step == 1)
+//@   loop 0 invariant cols: len(result.Versions) == len(result.Timestamps) && (result.Timestamps == nil || fresh(result.Timestamps)) && (result.Versions == nil || fresh(result.Versions))
+//@   loop 0 invariant hdr: sameobj(qr.data, old(qr.data)) && off(qr.data) == off(old(qr.data)) && len(qr.data) <= old(len(qr.data))
+//@   loop 0 invariant list: qrListOK(qr)
+//@   loop 0 invariant valid: allBC()
+//@   loop 0 invariant top: qrTop(qr)
+//@   loop 0 invariant inputs: allInc()
+//@   loop 0 invariant strict: strictTimes(result, qr.ascTS)
+//@   loop 0 invariant started: (lastSid == 0) == (len(result.Timestamps) == 0)
+//@   loop 0 invariant frontier: len(result.Timestamps) > 0 ==> (forall c *blockCursor :: c.inHeap ==> tsBefore(qr.ascTS, result.Timestamps[len(result.Timestamps)-1], c.timestamps[c.idx]) || result.Timestamps[len(result.Timestamps)-1] == c.timestamps[c.idx])
